@@ -213,12 +213,26 @@ func checkC10Flat(c SetCase) error {
 		if r1.Failed() || r1.Out != r2.Out {
 			return fmt.Errorf("the chain renders %v, the template obtained by substituting the blocks by hand renders %s; templates:%s\nflattened: %s", r1, q(r2.Out), showSources(srcs), q(fsrc))
 		}
+		// the same two renders on engines that have a global under every context name: the values
+		// passed to the render call are the ones every level of the chain sees
+		goCtx := zooCtx(ctx, 0)
+		for name := range goCtx {
+			e1.AddGlobal(name, "GLOBAL")
+			e2.AddGlobal(name, "GLOBAL")
+		}
+		g1, g2 := render(e1, main, zooCtx(ctx, 0)), render(e2, "flat", zooCtx(ctx, 0))
+		if g1.Panic != "" || g2.Panic != "" {
+			return fmt.Errorf("panic with globals: chain %v / flattened %v; templates:%s", g1, g2, showSources(srcs))
+		}
+		if !g2.Failed() && (g1.Failed() || g1.Out != g2.Out) {
+			return fmt.Errorf("with engine globals named like the context variables the chain renders %v, the template obtained by substituting the blocks by hand renders %s; templates:%s\nflattened: %s", g1, q(g2.Out), showSources(srcs), q(fsrc))
+		}
 	}
 	return nil
 }
 
 func TestC10Flatten(t *testing.T) {
-	r := NewRec(t, "C10", "the generated extends chains of TestC10Inheritance and the grid of TestC10Grid, compared with the single template obtained by substituting blocks and parent() calls by hand on the case AST (no extends, no block, no parent() left); chains with static parent names are checked a second time laid out in nested directories with every child extending the same relative name '../t'; oracle: identical engine output; non-trivial as in TestC10Inheritance; cases whose parent() has no parent definition are not flattened (counted)")
+	r := NewRec(t, "C10", "the generated extends chains of TestC10Inheritance and the grid of TestC10Grid, compared with the single template obtained by substituting blocks and parent() calls by hand on the case AST (no extends, no block, no parent() left); chains with static parent names are checked a second time laid out in nested directories with every child extending the same relative name '../t'; oracle: identical engine output, also when the engines carry globals named like every context variable; non-trivial as in TestC10Inheritance; cases whose parent() has no parent definition are not flattened (counted)")
 	defer r.Flush()
 	forEachC10Grid(func(key string, sc SetCase) {
 		if _, ok := c10FlatTemplate(sc, sc.Ctx); !ok {
